@@ -688,20 +688,43 @@ fn check_history(plan: &Plan, versions: &[Workspace], sh: &Shared, stats: &mut R
             expected.insert((*v, q.clone()), a);
         }
     }
-    for r in &sh.readers {
+    // Which cancellations are justified? Fixpoint over "overlaps in time with an unwinding peer".
+    let overlaps = |a: &ReaderRec, b: &ReaderRec| a.reader != b.reader && a.span.0 <= b.span.1 && b.span.0 <= a.span.1;
+    let host_panicked = sh.compares.iter().any(|c| c.results.iter().any(|(_, x)| matches!(x, QResult::Panic(_))));
+    let mut justified_cancellations: std::collections::BTreeSet<usize> = std::collections::BTreeSet::new();
+    for (i, r) in sh.readers.iter().enumerate() {
+        if r.result == QResult::Cancelled
+            && (r.cancel_ok || host_panicked || sh.readers.iter().any(|o| matches!(o.result, QResult::Panic(_)) && overlaps(o, r)))
+        {
+            justified_cancellations.insert(i);
+        }
+    }
+    loop {
+        let mut grew = false;
+        for (i, r) in sh.readers.iter().enumerate() {
+            if r.result == QResult::Cancelled
+                && !justified_cancellations.contains(&i)
+                && justified_cancellations.iter().any(|j| overlaps(&sh.readers[*j], r))
+            {
+                justified_cancellations.insert(i);
+                grew = true;
+            }
+        }
+        if !grew {
+            break;
+        }
+    }
+    for (ri, r) in sh.readers.iter().enumerate() {
         let kind_tag = format!("query.{:?}", r.query.kind);
         match &r.result {
             QResult::Cancelled => {
-                // salsa: "If the other thread panics, we treat this as cancellation".
-                // A waiter need not have been seen waiting (the event-less wait in
-                // maybe_changed_since): any peer whose panicking query overlaps in time counts.
-                let peer_panicked = sh.readers.iter().any(|o| {
-                    o.reader != r.reader
-                        && matches!(o.result, QResult::Panic(_))
-                        && o.span.0 <= r.span.1
-                        && r.span.0 <= o.span.1
-                }) || sh.compares.iter().any(|c| c.results.iter().any(|(_, x)| matches!(x, QResult::Panic(_))));
-                if peer_panicked {
+                // salsa: "If the other thread panics, we treat this as cancellation" - and a
+                // thread that unwinds because it was cancelled itself counts just the same for
+                // whoever waits for one of its queries. A waiter need not have been seen waiting
+                // (the event-less wait in maybe_changed_since), so overlap in time is the
+                // criterion; the justification must bottom out in a pending change or a panic.
+                let peer_panicked = justified_cancellations.contains(&ri);
+                if peer_panicked && !r.cancel_ok {
                     stats.cancelled_by_peer_panic += 1;
                 }
                 if !r.cancel_ok && !peer_panicked {
